@@ -53,6 +53,14 @@ RULE = ("seeded generator over classes {non-negative / non-positive / sign-cross
         "C10-pnorm-large-p-range, whose cases - the same exponents at scales 2^-20..2^20 - are generated only while known_findings.json "
         "lists it); landscapes with full-mantissa ordinates keep nseg * p^2 <= 10000 (cost of the exact evaluation inside Coq), "
         "short dyadic ordinates go up to p = 256; "
+        "extreme scales (class `extreme`, p in {1,2,3,5}): landscapes all of whose ordinates are of size 1e-150..1e-250 or 1e150..1e250 "
+        "(the product of two ordinates under- / overflows although every ordinate and the norm are ordinary doubles; abscissae stay "
+        "ordinary): explicit critical pairs with crossings (also |y0| = |y1| across the axis) and of every other sign class as list / "
+        "np scalar / tuple / ndarray; differences P - Q and linear combinations of diagrams' exact landscapes scaled by L*s, s*L or "
+        "L/(1/s); combinations s*P + (-s)*Q whose coefficients carry the scale; grid landscapes from sign-changing values (C / F / "
+        "strided) and scaled differences of grid landscapes of diagrams; ordinary differences whose homogeneity factor c is the "
+        "extreme scale; triangle partner at the same scale; scales from {1e-150,1e-163,1e-170,1e-200,1e-250,1e150,1e155,1e170,1e200,"
+        "1e250} or m*10^(+-e), e in 150..250; every kind is met in every run; "
         "a case is non-trivial when the call succeeds and "
         "the reported landscape has a sloped segment with non-zero integral; distinct = distinct JSON input")
 TRUSTED_BASE = [
@@ -60,7 +68,8 @@ TRUSTED_BASE = [
     "Coquelicot (RInt) and the stdlib axioms of the classical reals for seg_closed_form_is_RInt, depth_pow_is_RInt, the every_real_t theorems and the Minkowski / triangle theorems (pnorm_minkowski*, pnorm_triangle*; proved by integration, also where stated over Q); the other theorems are closed under the global context",
     "coq-interval per-case certificates for real p (stdlib axioms of the classical reals, primitive-float specs)",
     "hand-written models Model/PNormM.v, Model/PNormRM.v of auxiliary.py:_p_norm, exact.py 381-400, approximate.py 315-370",
-    "harness: generator, float->exact-rational printer, landscape construction through the public API",
+    "harness: generator, float->exact-rational printer (doubles below 2^-128 / integers above 2^128 are printed as num / 2^k resp. "
+    "m * 2^k with the power evaluated by vm_compute: the same rational), landscape construction through the public API",
 ]
 ASSUMPTIONS = [
     "the landscape whose norm is taken is the one the implementation reports (critical_pairs / start, stop, "
@@ -69,6 +78,10 @@ ASSUMPTIONS = [
     "large exponents (p > 10) are generated only at magnitudes where |f|^p stays inside the binary64 range (see _fits); that the "
     "norm is also right where |f|^p leaves that range is NOT checked while fixes/C10_pnorm_large_p_range.patch is not applied",
     "np.linspace(start, stop, n)[i] = start + i (stop-start)/(n-1) up to rounding",
+    "extreme scales are generated for the ORDINATES only (what c * P scales) and with p <= 5: with abscissae of the same size, or "
+    "ordinates below ~1e-290, the norm itself would leave the binary64 range; real p is not generated at extreme scales (no "
+    "interval certificate attempted there); landscapes mixing ordinary and extreme ordinates are not generated (the extreme part "
+    "is then below the tolerance)",
     "single-precision CRITICAL PAIRS / diagrams are not generated: _p_norm then works in float32 (relative error ~1e-8, "
     "outside the binary64 tolerance); float32 `values` arrays are generated (the grid, hence the pairs, is binary64), with "
     "homogeneity factors restricted to powers of two because c*P is itself formed in single precision (C09)",
@@ -673,7 +686,7 @@ def generate(rng, tier):
     cases += [_case(rng, "near_one_p", i) for i in range(n_one)]
     cases += [_case(rng, "p_rep", i) for i in range(n_rep)]
     # extreme scales (every kind of EXTREME_KINDS is met in every run)
-    cases += [_case(rng, "extreme", i) for i in range(40 if tier == "quick" else 1500)]
+    cases += [_case(rng, "extreme", i) for i in range(40 if tier == "quick" else 800)]
     if _range_finding_listed():
         cases += [_case(rng, "big_p_range") for _ in range(4 if tier == "quick" else 60)]
     return cases
